@@ -168,6 +168,75 @@ QUICK = ["attributes.CryptographicParameters", "attributes.ApplicationSpecificIn
          "set_attribute.SetAttributeRequestPayload", "create_key_pair.CreateKeyPairRequestPayload"]
 
 
+def name_tag_table():
+    """KMIP 2.0 encodes attribute names as tags: the name <-> tag table must be a bijection whose tag is the
+    one the specification's tag registry gives that name (the registry's identifier is the name in upper
+    case with '_' for space and '.', '#' dropped)."""
+    entries = list(enums.attribute_name_tag_table)
+
+    def h(i: int) -> bool:
+        """
+        post: _
+        """
+        if not (0 <= i < len(entries)):
+            return True
+        name = tag = None
+        for k in range(len(entries)):
+            if i == k:
+                name, tag = entries[k]
+        reach()
+        want = name.upper().replace(" ", "_").replace(".", "_").replace("#", "")
+        if tag.name != want:
+            return False
+        if enums.convert_attribute_name_to_tag(name) is not tag:
+            return False
+        if enums.convert_attribute_tag_to_name(tag) != name:
+            return False
+        # no other entry claims the same tag or the same name
+        for k in range(len(entries)):
+            if k != i and (entries[k][0] == name or entries[k][1] is tag):
+                return False
+        return True
+    return h
+
+
+def fresh_decodes():
+    """Decoding is a function of the bytes alone: decoding the same key block again (after another value
+    was decoded in between) gives an object that re-encodes to the same bytes."""
+    from kmip.core import objects as cobjects, attributes as cattrs
+    from kmip.core.factories import attributes as af
+
+    def h(n_attrs: int, text: str, value: bytes) -> bool:
+        """
+        post: _
+        """
+        if not (0 <= n_attrs <= 2) or len(text) != 1 or ord(text) > 127 or len(value) != 2:
+            return True
+        F = af.AttributeFactory()
+        attrs = []
+        if n_attrs >= 1:
+            attrs.append(F.create_attribute(enums.AttributeType.OBJECT_GROUP, text))
+        if n_attrs >= 2:
+            attrs.append(F.create_attribute(enums.AttributeType.CRYPTOGRAPHIC_LENGTH, 128))
+
+        def mk(v, a):
+            return cobjects.KeyBlock(
+                key_format_type=cobjects.KeyFormatType(enums.KeyFormatType.RAW),
+                key_value=cobjects.KeyValue(key_material=cobjects.KeyMaterial(v), attributes=a) if a is not None
+                else cobjects.KeyValue(key_material=cobjects.KeyMaterial(v)),
+                cryptographic_algorithm=cattrs.CryptographicAlgorithm(enums.CryptographicAlgorithm.AES),
+                cryptographic_length=cattrs.CryptographicLength(128))
+        v = V.KMIP_1_2
+        b1 = S.enc(mk(value, attrs), v)
+        b2 = S.enc(mk(b"\x09\x09", None), v)
+        x1 = S.dec(cobjects.KeyBlock, b1, v)
+        y = S.dec(cobjects.KeyBlock, b2, v)
+        x2 = S.dec(cobjects.KeyBlock, b1, v)
+        reach()
+        return S.enc(x1, v) == b1 and S.enc(y, v) == b2 and S.enc(x2, v) == b1
+    return h
+
+
 def struct_walk(name, versions=None):
     """C02 part B: the same executions with the independent walker as the oracle of interest."""
     return struct_rt(name, versions, pairs=False, walker=True)
@@ -187,6 +256,11 @@ def conditions(tier):
     thorough = tier == "thorough"
     S.load_or_discover()
     out = []
+    out.append(Cond("name-tag-table", "name_tag_table", {},
+                    bounds="every entry of enums.attribute_name_tag_table", timeout=300, part="tables"))
+    out.append(Cond("fresh-decodes-KeyBlock", "fresh_decodes", {},
+                    bounds="a key block whose key value carries 0-2 attributes, decoded, another key block decoded, the "
+                           "first decoded again", timeout=300, part="structure"))
     names = sorted(S.qual(c) for c in S.all_classes() if S._CACHE.get(c) is not None)
     chosen = names if thorough else [n for n in QUICK if n in names]
     for name in chosen:
